@@ -143,7 +143,16 @@ impl Sim {
     }
     fn with_ttl(kind: Kind, min_temp: u32, start: u32, all_real: bool, max_ttl: u32) -> Sim {
         let e = new_env(start, min_temp, max_ttl);
-        let u = Universe::new(&e, N + 1);
+        // two of the accounts are ACCOUNT addresses (G...), the only kind that can be the target of a
+        // multiplexed `MuxedAddress`; `transfer` to them is mostly sent to a muxed destination
+        let mut u = Universe::new(&e, 0);
+        for i in 0..N + 1 {
+            if i == 1 || i == 3 {
+                u.push(<MuxedAddress as soroban_sdk::testutils::MuxedAddress>::generate(&e).address());
+            } else {
+                u.push(<Address as soroban_sdk::testutils::Address>::generate(&e));
+            }
+        }
         let c = match kind {
             Kind::Ex => e.register(fv_example::ExampleContract, (u.a(OWNER).clone(),)),
             Kind::Fvb => e.register(fvb_contract::Fvb, ()),
@@ -337,7 +346,15 @@ impl Sim {
             (Kind::Nft, "approve_all") => ("approve_for_all", args(e, [self.ad(a[0]), self.ad(a[1]), v(e, lu)])),
             (_, "mint") => ("mint", args(e, [self.ad(a[0]), v(e, amt)])),
             (_, "transfer") => {
-                let to: MuxedAddress = self.u.a(a[1]).clone().into();
+                // the entry point takes a `MuxedAddress`: a destination carrying a mux id must be
+                // credited (tokens AND voting units) exactly like the plain address
+                let muxed = (a[1] == 1 || a[1] == 3) && (amt.unsigned_abs() + self.now as u128) % 4 != 0;
+                let to: MuxedAddress = if muxed {
+                    let id = [1u64, 77, u64::MAX, 1 << 40][(amt.unsigned_abs() % 4) as usize];
+                    <MuxedAddress as soroban_sdk::testutils::MuxedAddress>::new(self.u.a(a[1]).clone(), id)
+                } else {
+                    self.u.a(a[1]).clone().into()
+                };
                 ("transfer", args(e, [self.ad(a[0]), v(e, to), v(e, amt)]))
             }
             (_, "transfer_from") => ("transfer_from", args(e, [self.ad(a[0]), self.ad(a[1]), self.ad(a[2]), v(e, amt)])),
@@ -348,9 +365,24 @@ impl Sim {
             _ => unreachable!("{}", op),
         };
         let q = self.window();
+        // ACCOUNT addresses (indices 1 and 3) cannot be mocked individually by the test host: when
+        // one of them signs and the principal of the call (always the first address) is among the
+        // signers, everybody authorizes (recording mode, the op line then lists every address); otherwise
+        // the account signers are dropped
+        let mut auth: Vec<usize> = auth.to_vec();
+        let has_acct = auth.iter().any(|&i| i == 1 || i == 3);
+        let all_auth = has_acct && !a.is_empty() && auth.contains(&a[0]);
+        if has_acct && !all_auth {
+            auth.retain(|&i| i != 1 && i != 3);
+        }
+        if all_auth {
+            // recording mode: EVERY address authorizes, and the op line says so
+            auth = (0..self.u.len()).collect();
+        }
+        let auth = &auth[..];
         t.op(&format!("votes {} a={} amt={} id={} lu={} auth={} q={}", op, join(a), amt, id, lu, join(auth), join(&q)));
         let signers: Vec<&Address> = auth.iter().map(|&i| self.u.a(i)).collect();
-        let r = call(e, &self.c, func, argv, &signers);
+        let r = if all_auth { call_all_auth(e, &self.c, func, argv) } else { call(e, &self.c, func, argv, &signers) };
         let tag = if r.is_some() { "ok" } else { "err" };
         if self.long && r.is_some() && self.sticky.len() < 48 && !self.sticky.contains(&self.now) {
             // a ledger with activity (a checkpoint ledger): remembered and re-queried for ever
